@@ -8,7 +8,7 @@ COQ = os.path.join(VERIF, 'coq')
 BUILD = os.path.join(VERIF, 'build')
 MODELRUN = os.path.join(BUILD, 'modelrun')
 NUM_PROPS = ('C05', 'C06', 'C16', 'C17', 'C18', 'C19', 'C20')
-GEN_PROPS = ('C15', 'C01')
+GEN_PROPS = ('C15', 'C01', 'C08')
 GATE_RE = re.compile(r'\b(Admitted|admit|Axiom|Axioms|Parameter|Parameters|Conjecture|Hypothesis|Variable)\b|Unset\s+Guard|bypass_check|type-in-type|impredicative-set|Admit\s+Obligations')
 
 
